@@ -1,5 +1,4 @@
-(* WORK IN PROGRESS (not yet used by Check/Props): pointer-level model.
-   Executable model of the linked list of boltons.cacheutils.LRI at the level of
+(* Executable model of the linked list of boltons.cacheutils.LRI at the level of
    cells and pointers, as written: every link is a 4-field list object
    [PREV, NEXT, KEY, VALUE]; self._anchor is the sentinel; self._link_lookup maps
    a key to its link.  Cells are identified by allocation numbers; the heap is a
@@ -53,6 +52,10 @@ Definition p_move_to_front (pr : pring) (k : K) : option (pring * id) :=
       let h := set_next h newest anchor in                             (* newest[NEXT] = anchor *)
       Some (mkPR h anchor (pr_lookup pr) (pr_fresh pr), newest)
   end.
+
+(* link[VALUE] = value *)
+Definition p_set_value (pr : pring) (n : id) (v : V) : pring :=
+  mkPR (set_val (pr_heap pr) n (Some v)) (pr_anchor pr) (pr_lookup pr) (pr_fresh pr).
 
 (* _set_key_and_add_to_front_of_ll *)
 Definition p_add_to_front (pr : pring) (k : K) (v : V) : pring :=
